@@ -800,52 +800,77 @@ func r09LevelArithmetic(c *core.Ctx) {
 	if a == nil || b == nil {
 		return
 	}
-	find := func(f *core.Func) (string, ast.Expr, string) {
-		info := f.Pkg.TypesInfo
-		var diff ast.Expr
-		var diffObj types.Object
-		lvl := ""
-		ast.Inspect(f.Decl.Body, func(n ast.Node) bool {
+	// the level as a polynomial over the code's symbols, temporaries inlined
+	norm := func(p lpoly, idSym string, f *core.Func) lpoly {
+		p = pRename(p, "pointindex.", "")
+		// the tile matrix set parameter has a different name in the two functions
+		p = pRename(p, f.Obj.Type().(*types.Signature).Params().At(0).Name()+".", "TMS.")
+		return pRename(p, idSym, "ID")
+	}
+	// (a) FromTileMatrixSet: the value of the deepestLevel field of the PointIndex literal
+	var la lpoly
+	{
+		info := a.Pkg.TypesInfo
+		env := newSymEnv(c.P, info)
+		env.run(a.Decl.Body.List)
+		if lit := findLit(info, a.Decl.Body, "pointindex.PointIndex"); lit != nil {
+			for _, el := range lit.Elts {
+				if kv, ok := el.(*ast.KeyValueExpr); ok && canon(kv.Key) == "deepestLevel" {
+					if p, ok := env.eval(kv.Value); ok {
+						la = norm(p, a.Obj.Type().(*types.Signature).Params().At(1).Name(), a)
+					}
+				}
+			}
+		}
+	}
+	// (b) tileMatrixIDsByLevels: the key under which an id is stored
+	var lb lpoly
+	{
+		info := b.Pkg.TypesInfo
+		env := newSymEnv(c.P, info)
+		env.run(b.Decl.Body.List)
+		ast.Inspect(b.Decl.Body, func(n ast.Node) bool {
 			as, ok := n.(*ast.AssignStmt)
-			if !ok || len(as.Lhs) != 1 || len(as.Rhs) != 1 {
+			if !ok || len(as.Lhs) != 1 {
 				return true
 			}
-			if id, ok := as.Lhs[0].(*ast.Ident); ok && id.Name == "levelDiff" {
-				diff = as.Rhs[0]
-				diffObj = core.ObjOf(info, id)
-			}
-			if diffObj != nil && core.UsesObj(info, as.Rhs[0], diffObj) {
-				lvl = canon(as.Rhs[0])
+			if ix, ok := as.Lhs[0].(*ast.IndexExpr); ok && isLevelKeyed(info.TypeOf(ix.X)) {
+				if p, ok := env.eval(ix.Index); ok {
+					idName := canon(as.Rhs[0])
+					lb = norm(p, idName, b)
+				}
 			}
 			return true
 		})
-		s := ""
-		if diff != nil {
-			s = strings.ReplaceAll(canon(diff), "pointindex.", "")
-		}
-		return s, diff, lvl
 	}
-	sa, ea, la := find(a)
-	sb, _, lb := find(b)
-	c.Check(R, "level-diff-agrees", a.Decl.Pos(), sa != "" && sa == sb, "levelDiff is computed identically in pointindex.FromTileMatrixSet and snap.tileMatrixIDsByLevels: "+sa,
+	same := la != nil && lb != nil && pEq(la, lb)
+	sa, sb := "?", "?"
+	if la != nil {
+		sa = la.String()
+	}
+	if lb != nil {
+		sb = lb.String()
+	}
+	c.Check(R, "level-diff-agrees", a.Decl.Pos(), same, "level is computed identically in pointindex.FromTileMatrixSet and snap.tileMatrixIDsByLevels: "+sa,
 		fmt.Sprintf("the two copies of the level arithmetic differ: %q vs %q — the index is built at a different depth than the levels that are requested from it", sa, sb))
-	okMention := strings.Contains(sa, "rootTM.TileWidth") && strings.Contains(sa, "VectorTileInternalPixelResolution") && strings.Count(sa, "math.Log2") == 2
-	// root matrix is TileMatrices[0]
-	for _, f := range []*core.Func{a, b} {
-		if !strings.Contains(canonNode(c.P, f.Decl.Body), "rootTM:=") || !strings.Contains(canonNode(c.P, f.Decl.Body), ".TileMatrices[0]") {
-			okMention = false
-		}
-	}
+	// shape: ID + log2(root tile width) + log2(16), each with coefficient 1
+	want := pAdd(pAdd(pSym("ID"), pSym("math.Log2(float64(TMS.TileMatrices[0].TileWidth))"), 1), pSym("math.Log2(float64(VectorTileInternalPixelResolution))"), 1)
 	kv := int64(0)
 	if pk := c.P.PkgShort("pointindex"); pk != nil {
 		if k, ok := pk.Types.Scope().Lookup("VectorTileInternalPixelResolution").(*types.Const); ok {
 			fmt.Sscan(k.Val().ExactString(), &kv)
 		}
 	}
-	_ = ea
-	c.Check(R, "level-diff-operands", a.Decl.Pos(), okMention && kv == 16, "log2(root tile width) + log2(VectorTileInternalPixelResolution = 16 = 4096/256)", fmt.Sprintf("levelDiff does not use the root matrix' TileWidth and the constant 16 (constant is %d)", kv))
-	okLvl := strings.HasPrefix(la, "uint(") && strings.HasSuffix(la, ")+levelDiff") && strings.HasPrefix(lb, "uint(") && strings.HasSuffix(lb, ")+levelDiff")
-	c.Check(R, "level-is-id-plus-diff", b.Decl.Pos(), okLvl, "level = uint(tile matrix id) + levelDiff in both places", fmt.Sprintf("level formulas: %q and %q", la, lb))
+	rootOK := true
+	for _, f := range []*core.Func{a, b} {
+		src := canonNode(c.P, f.Decl.Body)
+		if !strings.Contains(src, ".TileMatrices[0]") {
+			rootOK = false
+		}
+	}
+	c.Check(R, "level-diff-operands", a.Decl.Pos(), la != nil && pEq(la, want) && kv == 16 && rootOK, "level = id + log2(tile width of matrix 0) + log2(VectorTileInternalPixelResolution = 16 = 4096/256)",
+		fmt.Sprintf("the level is %s, expected id + log2(root tile width) + log2(16) (constant is %d)", sa, kv))
+	c.Check(R, "level-is-id-plus-diff", b.Decl.Pos(), lb != nil && pEq(lb, want), "snap's copy has the same shape", "snap's level formula is "+sb)
 	c.Floor(R, 3)
 }
 
@@ -1186,6 +1211,12 @@ func r12RingSizeGuards(c *core.Ctx) {
 	c.Floor(R, 6)
 }
 
+// isNotOf: v is the negation of a read of the named field.
+func isNotOf(v ssa.Value, field string) bool {
+	u, ok := v.(*ssa.UnOp)
+	return ok && u.Op == token.NOT && isFieldRead(u.X, field)
+}
+
 func findCallsByName(fn *ssa.Function, name string) []*ssa.Call {
 	var out []*ssa.Call
 	for _, b := range fn.Blocks {
@@ -1249,32 +1280,87 @@ func r13WindingOrder(c *core.Ctx) {
 		}
 	}
 	c.Check(R, "reversal-is-last/"+aps.Name, rv[0].Pos(), okOrder && stored && after == 0, "dedupeInnersOuters -> matchInnersToPolygons -> reverseWindingOrderIfConfigured -> store, on the same value", "the configured reversal is not the last transformation before the level's polygons are stored (hole matching relies on normalised orientation)")
-	// reversal covers every ring of every polygon, iff configured
+	// reversal covers every ring of every polygon, iff configured (SSA: independent of loop form)
 	info := rev.Pkg.TypesInfo
+	_ = info
 	okRev := false
-	if len(rev.Decl.Body.List) == 2 {
-		polys := rev.Obj.Type().(*types.Signature).Params().At(0)
-		if is, ok := rev.Decl.Body.List[0].(*ast.IfStmt); ok && terminates(c.P, info, is.Body) {
-			if u, ok := ast.Unparen(is.Cond).(*ast.UnaryExpr); ok && u.Op == token.NOT && core.SelFieldID(info, u.X) == "snap.Config.ReverseWindingOrder" {
-				if outer, ok := rev.Decl.Body.List[1].(*ast.RangeStmt); ok && len(outer.Body.List) == 1 && core.ObjOf(info, outer.X) == polys && outer.Value == nil {
-					if inner, ok := outer.Body.List[0].(*ast.RangeStmt); ok && len(inner.Body.List) == 1 && inner.Value == nil && !hasJump(outer.Body, token.BREAK, token.CONTINUE, token.RETURN).IsValid() {
-						if es, ok := inner.Body.List[0].(*ast.ExprStmt); ok {
-							if call, ok := es.X.(*ast.CallExpr); ok && core.IsCallTo(info, call, "slices.Reverse") && len(call.Args) == 1 {
-								if jx, ok := call.Args[0].(*ast.IndexExpr); ok && core.ObjOf(info, jx.Index) == core.ObjOf(info, inner.Key) {
-									if ixx, ok := jx.X.(*ast.IndexExpr); ok && core.ObjOf(info, ixx.Index) == core.ObjOf(info, outer.Key) && core.ObjOf(info, ixx.X) == polys {
-										if rx, ok := inner.X.(*ast.IndexExpr); ok && core.ObjOf(info, rx.X) == polys && core.ObjOf(info, rx.Index) == core.ObjOf(info, outer.Key) {
-											okRev = true
-										}
-									}
-								}
+	revWhy := "no slices.Reverse call"
+	{
+		rfn := rev.SSA
+		var rcall *ssa.Call
+		for _, bb := range rfn.Blocks {
+			for _, in := range bb.Instrs {
+				if call, ok := in.(*ssa.Call); ok && strings.HasPrefix(core.StaticCalleeID(call), "slices.Reverse") {
+					rcall = call
+				}
+			}
+		}
+		if rcall != nil {
+			revWhy = ""
+			// argument: element of element of the polygons parameter, indexed by two full-range loop counters
+			elemOf := func(v ssa.Value) (base ssa.Value, idx *ssa.BinOp) {
+				ia := sliceElemLoad(v)
+				if ia == nil {
+					return nil, nil
+				}
+				bo, _ := ia.Index.(*ssa.BinOp)
+				return ia.X, bo
+			}
+			poly, j := elemOf(rcall.Call.Args[0])
+			var param ssa.Value
+			var i *ssa.BinOp
+			if poly != nil {
+				param, i = elemOf(poly)
+			}
+			if param != ssa.Value(rfn.Params[0]) || i == nil || j == nil {
+				revWhy = "the reversed value is not polygons[i][j] for loop counters i, j"
+			} else {
+				inner, outer := sliceLoopOf(j, poly), sliceLoopOf(i, param)
+				if inner == nil || outer == nil {
+					revWhy = "the counters do not belong to range loops over the whole slices"
+				} else {
+					bodyEdge := func(l *loopInfo) func(*ssa.BasicBlock, int) bool {
+						return func(bb *ssa.BasicBlock, k int) bool {
+							if bb == l.header {
+								return k == 0
 							}
+							return true
+						}
+					}
+					skipInner, _ := core.Search{Fn: rfn, From: j, Target: instrIs(j), Barrier: instrIs(rcall), Edge: bodyEdge(inner)}.Run()
+					skipOuter, _ := core.Search{Fn: rfn, From: i, Target: instrIs(i), Barrier: instrIs(j), Edge: bodyEdge(outer)}.Run()
+					if skipInner || skipOuter {
+						revWhy = "an iteration can complete without reversing its ring (skip)"
+					}
+					// only under the flag, and always under the flag
+					var flagIf *ssa.If
+					for _, bb := range rfn.Blocks {
+						if fi := core.BlockIf(bb); fi != nil && (isFieldRead(fi.Cond, "ReverseWindingOrder") || isNotOf(fi.Cond, "ReverseWindingOrder")) {
+							flagIf = fi
+						}
+					}
+					if flagIf == nil {
+						revWhy += " no test of config.ReverseWindingOrder"
+					} else {
+						onSucc := 0
+						if isNotOf(flagIf.Cond, "ReverseWindingOrder") {
+							onSucc = 1
+						}
+						without, _ := core.Search{Fn: rfn, Target: instrIs(rcall), Edge: func(bb *ssa.BasicBlock, k int) bool { return !(core.BlockIf(bb) == flagIf && k == onSucc) }}.Run()
+						missed, _ := core.Search{Fn: rfn, Target: core.IsReturn, Barrier: instrIs(i), Edge: func(bb *ssa.BasicBlock, k int) bool { return !(core.BlockIf(bb) == flagIf && k != onSucc) }}.Run()
+						if without {
+							revWhy += " rings are reversed although the flag is not set"
+						}
+						if missed {
+							revWhy += " with the flag set the function can return without entering the loops"
 						}
 					}
 				}
 			}
+			okRev = revWhy == ""
 		}
 	}
-	c.Check(R, "reversal-covers-every-ring/"+rev.Name, rev.Decl.Pos(), okRev, "returns early iff !config.ReverseWindingOrder, otherwise reverses every ring of every polygon", "reverseWindingOrderIfConfigured does not reverse exactly every ring when (and only when) configured")
+	c.Check(R, "reversal-covers-every-ring/"+rev.Name, rev.Decl.Pos(), okRev, "iff config.ReverseWindingOrder: slices.Reverse(polygons[i][j]) for every i and j, no skip", "reverseWindingOrderIfConfigured does not reverse exactly every ring when (and only when) configured: "+revWhy)
 	// the orientation predicate itself: decided by the trusted library primitive on the whole ring
 	if w := c.Anchor(R, "snap.windingOrderIsCorrect"); w != nil {
 		winfo := w.Pkg.TypesInfo
